@@ -16,8 +16,20 @@ Statements expected false of the pinned tree (DESIGN §6 C07 ⟂) come as a coun
   * `v1_checksum_required`             ⟂  witnesses `v1_damaged_checksum_line_unchecked`,
                                         `v1_damaged_last_line_earlier_governs`
   * `validated_get_sound` (all sizes)  ⟂  witness `validated_get_large_unchecked`
+
+Extension (second half of the file): the exact acceptance condition of `EncodingFile::parse` with the
+entry parsers as parameters (`enc_accepts_iff`), the arbitrary-`H` theorems instantiated with the
+real functions (`Spec.Md5.md5`, `Spec.Sha256.sha256`, `Model.Jenkins.hashlittle`), facts about the
+hex rendering used by V1, completeness of the writers (`lru_serialize_accepted_md5`,
+`v1_seal_passes_sha256`).  The source tie (ranges / lengths / constants extracted from the current
+Rust text = what the models use) is Proofs/IntegrityTie, audited in Audit/C07.
 -/
 import Cascette.Proofs.Integrity
+import Cascette.Proofs.IntegrityExt
+import Cascette.Proofs.IntegrityTie
+import Cascette.Spec.Md5
+import Cascette.Spec.Sha256
+import Cascette.Model.Jenkins
 namespace Cascette.Props.C07
 open Cascette Cascette.Model.Integrity
 open Cascette.Proofs.Integrity
@@ -426,5 +438,211 @@ example : (Cache.run lenHash ⟨true, 100⟩ [[], []]
 -- an accepted single-page "file" for parsePages
 example : Enc.parsePages lenHash (fun _ => .ok 1) 2 [([], [2])] [5, 6, 7] = .ok (1, [7]) := by rfl
 example : Enc.parsePages lenHash (fun _ => .ok 1) 2 [([], [3])] [5, 6, 7] = .error .checksum := by rfl
+
+/-! ## Extension -/
+
+/-! ### exact acceptance condition of `EncodingFile::parse` -/
+
+/-- `enc_accepts_iff`: with the two page-entry parsers as PARAMETERS, `EncodingFile::parse` succeeds
+with `(nc, ne)` entries iff the header reads and validates, the file is at least `data_size` long,
+the ESpec block is a list of non-empty NUL-terminated strings, EVERY CKey and EKey page hashes (whole
+page, whole 16-byte digest) to the checksum its index entry stores, and the entry parsers accept
+every page with these totals.  Nothing else is looked at: the ESpec block, the header, the
+`first_key` halves of the index and the trailing ESpec are NOT covered by any checksum of this format
+(the file as a whole is addressed by its encoding key, checked by the fetch path). -/
+theorem enc_accepts_iff (H : Hash) (peC peE : Enc.Header → Bytes → Except Enc.Err Nat) (d : Bytes) (nc ne : Nat) :
+    Enc.parseWith H peC peE d = .ok (nc, ne) ↔
+      ∃ h, Enc.readHeader d = .ok h ∧ Enc.headerOk h = true ∧ Enc.dataSize h ≤ d.length ∧
+        Enc.especOk (slice d 22 h.especSize) true = true ∧
+        (∀ i, i < h.ckCount → H (Proofs.Integrity.Enc.ckPage h d i) = Proofs.Integrity.Enc.ckSum h d i) ∧
+        (∀ i, i < h.ekCount → H (Proofs.Integrity.Enc.ekPage h d i) = Proofs.Integrity.Enc.ekSum h d i) ∧
+        Enc.entriesOf (peC h) (h.ckKb * 1024) h.ckCount (d.drop (Proofs.Integrity.Enc.ckPagesOff h)) = .ok nc ∧
+        Enc.entriesOf (peE h) (h.ekKb * 1024) h.ekCount (d.drop (Proofs.Integrity.Enc.ekPagesOff h)) = .ok ne :=
+  Proofs.IntegrityExt.Enc.parseWith_ok_iff H peC peE d nc ne
+
+/-- the same for `EncodingFile::parse` itself (entry loops of the crate), with the real MD5. -/
+theorem enc_parse_accepts_iff_md5 (d : Bytes) (nc ne : Nat) :
+    Enc.parse Spec.Md5.md5 d = .ok (nc, ne) ↔
+      ∃ h, Enc.readHeader d = .ok h ∧ Enc.headerOk h = true ∧ Enc.dataSize h ≤ d.length ∧
+        Enc.especOk (slice d 22 h.especSize) true = true ∧
+        (∀ i, i < h.ckCount → Spec.Md5.md5 (Proofs.Integrity.Enc.ckPage h d i) = Proofs.Integrity.Enc.ckSum h d i) ∧
+        (∀ i, i < h.ekCount → Spec.Md5.md5 (Proofs.Integrity.Enc.ekPage h d i) = Proofs.Integrity.Enc.ekSum h d i) ∧
+        Enc.entriesOf (Enc.ckPe h) (h.ckKb * 1024) h.ckCount (d.drop (Proofs.Integrity.Enc.ckPagesOff h)) = .ok nc ∧
+        Enc.entriesOf (Enc.ekPe h) (h.ekKb * 1024) h.ekCount (d.drop (Proofs.Integrity.Enc.ekPagesOff h)) = .ok ne := by
+  rw [Enc.parse_eq_parseWith]; exact enc_accepts_iff _ _ _ d nc ne
+
+/-- exact success condition of the page loop alone (any index, any entry parser). -/
+theorem enc_pages_accept_iff (H : Hash) (pe : Bytes → Except Enc.Err Nat) (ps : Nat)
+    (idx : List (Bytes × Bytes)) (rest : Bytes) (n : Nat) (r : Bytes) :
+    Enc.parsePages H pe ps idx rest = .ok (n, r) ↔
+      (idx.length * ps ≤ rest.length ∧ r = rest.drop (idx.length * ps) ∧
+       (∀ i (hi : i < idx.length), H (slice rest (i * ps) ps) = (idx[i]).2) ∧
+       Enc.entriesOf pe ps idx.length rest = .ok n) :=
+  Proofs.IntegrityExt.Enc.parsePages_ok_iff H pe ps idx rest n r
+
+/-- Rejection form: a file with a readable header in which some page (either table) does not hash to
+the checksum stored for it is NOT accepted — for every pair of entry parsers (so in particular before
+any entry of any page is handed out). -/
+theorem enc_page_mismatch_rejected (H : Hash) (peC peE : Enc.Header → Bytes → Except Enc.Err Nat) (d : Bytes)
+    (h : Enc.Header) (hh : Enc.readHeader d = .ok h)
+    (hbad : (∃ i, i < h.ckCount ∧ H (Proofs.Integrity.Enc.ckPage h d i) ≠ Proofs.Integrity.Enc.ckSum h d i) ∨
+            (∃ i, i < h.ekCount ∧ H (Proofs.Integrity.Enc.ekPage h d i) ≠ Proofs.Integrity.Enc.ekSum h d i))
+    (r : Nat × Nat) : Enc.parseWith H peC peE d ≠ .ok r := by
+  intro hp
+  obtain ⟨nc, ne⟩ := r
+  obtain ⟨h', e1, _, _, _, c, k, _⟩ := (enc_accepts_iff H peC peE d nc ne).mp hp
+  rw [hh] at e1; cases e1
+  rcases hbad with ⟨i, hi, hne⟩ | ⟨i, hi, hne⟩
+  · exact hne (c i hi)
+  · exact hne (k i hi)
+
+/-- Corruption form as a rejection: if `d` is accepted and `d'` has the same header and the same
+stored checksum for CKey page `i` (resp. EKey page `i`) but that page hashes differently, `d'` is
+rejected. -/
+theorem enc_page_corruption_rejected (H : Hash) (peC peE : Enc.Header → Bytes → Except Enc.Err Nat) (d d' : Bytes)
+    (r : Nat × Nat) (h : Enc.Header) (hp : Enc.parseWith H peC peE d = .ok r)
+    (hh : Enc.readHeader d = .ok h) (hh' : Enc.readHeader d' = .ok h)
+    (hbad : (∃ i, i < h.ckCount ∧ Proofs.Integrity.Enc.ckSum h d' i = Proofs.Integrity.Enc.ckSum h d i ∧
+                H (Proofs.Integrity.Enc.ckPage h d' i) ≠ H (Proofs.Integrity.Enc.ckPage h d i)) ∨
+            (∃ i, i < h.ekCount ∧ Proofs.Integrity.Enc.ekSum h d' i = Proofs.Integrity.Enc.ekSum h d i ∧
+                H (Proofs.Integrity.Enc.ekPage h d' i) ≠ H (Proofs.Integrity.Enc.ekPage h d i)))
+    (r' : Nat × Nat) : Enc.parseWith H peC peE d' ≠ .ok r' := by
+  obtain ⟨nc, ne⟩ := r
+  obtain ⟨h0, e1, _, _, _, c, k, _⟩ := (enc_accepts_iff H peC peE d nc ne).mp hp
+  rw [hh] at e1; cases e1
+  apply enc_page_mismatch_rejected H peC peE d' h hh'
+  rcases hbad with ⟨i, hi, hs, hne⟩ | ⟨i, hi, hs, hne⟩
+  · exact Or.inl ⟨i, hi, fun e => hne (by rw [e, hs, c i hi])⟩
+  · exact Or.inr ⟨i, hi, fun e => hne (by rw [e, hs, k i hi])⟩
+
+/-! ### the real hash functions -/
+
+/-- `hashlittle(·, 0)` and `hashlittle(·, CHECKSUM_A_SEED)` as naturals (seed taken from the source). -/
+def hl0 (b : Bytes) : Nat := (Model.Jenkins.hashlittle b 0).toNat
+def hlA (b : Bytes) : Nat :=
+  (Model.Jenkins.hashlittle b (BitVec.ofNat 32 Generated.IntegritySrc.lhdr_checksum_a_seed)).toNat
+
+/-- `.lru`: accepted iff size/version ok and bytes `[4,20)` are the MD5 of the whole file with them zeroed. -/
+theorem lru_accepts_iff_md5 (d : Bytes) :
+    Lru.accept Spec.Md5.md5 d = true ↔
+      Lru.validSize d.length = true ∧ Lru.version d ≤ Lru.maxVersion ∧ Lru.stored d = Spec.Md5.md5 (Lru.region d) :=
+  lru_accepts_iff _ d
+
+/-- … so two distinct accepted files with the same stored digest are an MD5 collision. -/
+theorem lru_corruption_needs_md5_collision (d d' : Bytes)
+    (ha : Lru.accept Spec.Md5.md5 d = true) (ha' : Lru.accept Spec.Md5.md5 d' = true) (hne : d' ≠ d)
+    (hst : Lru.stored d' = Lru.stored d) :
+    Lru.region d' ≠ Lru.region d ∧ Spec.Md5.md5 (Lru.region d') = Spec.Md5.md5 (Lru.region d) :=
+  lru_corruption_needs_collision _ d d' ha ha' hne hst
+
+/-- completeness of the writer: what `lru_file::serialize` produces — bytes `[4,20)` := MD5 of the
+buffer with them zeroed — is accepted by `deserialize`, for every well-sized buffer of version ≤ 1
+(so the acceptance condition is not vacuous, and the check does not reject good files). -/
+theorem lru_serialize_accepted_md5 (d : Bytes) (hs : Lru.validSize d.length = true) (hv : Lru.version d ≤ Lru.maxVersion) :
+    Lru.accept Spec.Md5.md5 (Proofs.IntegrityExt.Lru.rehash Spec.Md5.md5 d) = true :=
+  Proofs.IntegrityExt.Lru.rehash_accepted _ Spec.Md5.md5_length d hs hv
+
+/-- archive-index footer with the real MD5: every accepted footer stores the first 8 bytes of
+`MD5(fields[8,20) ‖ 0⁸)` — all 8 compared. -/
+theorem aidx_footer_md5 (cs : Bool) (d : Bytes) (v ob ekl cnt : Nat)
+    (hp : Aidx.footerCheck Spec.Md5.md5 cs d = .pass v ob ekl cnt) :
+    Proofs.Integrity.Aidx.storedOf d = (Spec.Md5.md5 (Aidx.hashedOf (Proofs.Integrity.Aidx.footerOf d))).take 8 ∧
+      (Proofs.Integrity.Aidx.storedOf d).length = 8 :=
+  (aidx_footer_hash_bytes_compared _ cs d v ob ekl cnt hp).2
+
+/-- update entry with the real lookup3: `validate_hash_guard` accepts iff the stored guard is
+literally `hashlittle(region, 0) | 0x8000_0000` (the Rust expression, as a `u32`). -/
+theorem update_guard_accepts_iff_hashlittle (e : Bytes) (hlen : e.length = 24) :
+    Upd.validate hl0 e = true ↔
+      leNat (e.take 4) = (Model.Jenkins.hashlittle (Upd.region e) 0 ||| 0x80000000#32).toNat := by
+  rw [update_guard_accepts_iff hl0 e hlen]
+  have := Proofs.IntegrityExt.Upd.guardOf_eq_or (fun b => Model.Jenkins.hashlittle b 0) (Upd.region e)
+  unfold Upd.guardOf Upd.guardOr at this
+  unfold hl0
+  rw [this]
+
+/-- local header with the real lookup3 and the seed found in the source: checksum A is all 32 bits of
+`hashlittle(bytes[0,22), 0x3D6BE971)`. -/
+theorem lhdr_accepts_iff_hashlittle (base : Nat) (h : Bytes) :
+    Lhdr.validate hlA base h = true ↔
+      leNat (slice h 22 4) = (Model.Jenkins.hashlittle (h.take 22) 0x3D6BE971#32).toNat ∧
+      slice h 26 4 = Lhdr.checksumB base h := by
+  rw [lhdr_accepts_iff]
+  have : hlA (h.take 22) % 2 ^ 32 = (Model.Jenkins.hashlittle (h.take 22) 0x3D6BE971#32).toNat := by
+    unfold hlA
+    rw [Nat.mod_eq_of_lt (BitVec.isLt _)]
+    rfl
+  rw [this]
+
+/-- `format!("{:x}")` facts used by the V1 check: two characters per byte, every character is one
+of `0-9a-f` (hence an ASCII hex digit, hence never `\n`, `\r` or `h`), and the rendering is injective. -/
+theorem v1_hex_rendering (x : Bytes) :
+    (V1.hexLower x).length = 2 * x.length ∧ (∀ b ∈ V1.hexLower x, Proofs.IntegrityExt.V1.isLowerHex b = true) ∧
+    (V1.hexLower x).all V1.isHexDigit = true ∧ (∀ y, V1.hexLower x = V1.hexLower y → x = y) :=
+  ⟨Proofs.IntegrityExt.V1.hexLower_length x, Proofs.IntegrityExt.V1.hexLower_lower x,
+   Proofs.IntegrityExt.V1.hexLower_all_hex x, fun y => Proofs.Integrity.V1.hexLower_inj x y⟩
+
+/-- V1 with the real SHA-256: a response that ends in a well-formed line passes iff the 64 digits are
+the lower-case hex of SHA-256 of ALL bytes before the line; otherwise it is a checksum error. -/
+theorem v1_sealed_accepts_iff_sha256 (a c eol : Bytes) (hl : c.length = 64) (hx : c.all V1.isHexDigit = true)
+    (heol : eol = [] ∨ eol = [0x0a] ∨ eol = [0x0d, 0x0a]) :
+    V1.check Spec.Sha256.sha256 (a ++ V1.pfx ++ c ++ eol) =
+      if V1.hexLower (Spec.Sha256.sha256 a) = c then .pass a (some c) else .checksumErr :=
+  v1_sealed_accepts_iff _ a c eol hl hx heol
+
+/-- completeness of the sealing line: `Checksum: <hex(SHA-256(a))>` seals ANY bytes `a` (whatever they
+contain), with each of the three line ends — the rendered digest always is a well-formed line. -/
+theorem v1_seal_passes_sha256 (a eol : Bytes) (heol : eol = [] ∨ eol = [0x0a] ∨ eol = [0x0d, 0x0a]) :
+    V1.check Spec.Sha256.sha256 (a ++ V1.pfx ++ V1.hexLower (Spec.Sha256.sha256 a) ++ eol) =
+      .pass a (some (V1.hexLower (Spec.Sha256.sha256 a))) :=
+  Proofs.IntegrityExt.V1.seal_passes _ Spec.Sha256.sha256_length a eol heol
+
+/-- a well-formed last line containing a digit outside `0-9a-f` (`is_ascii_hexdigit` admits `A-F`) is
+ALWAYS a checksum error — for every hash and every protected part: never passed, never unchecked. -/
+theorem v1_nonlower_line_rejected (H : Hash) (a c eol : Bytes) (hl : c.length = 64) (hx : c.all V1.isHexDigit = true)
+    (heol : eol = [] ∨ eol = [0x0a] ∨ eol = [0x0d, 0x0a]) (b : Byte) (hb : b ∈ c)
+    (hnl : Proofs.IntegrityExt.V1.isLowerHex b = false) :
+    V1.check H (a ++ V1.pfx ++ c ++ eol) = .checksumErr := by
+  rw [v1_sealed_accepts_iff H a c eol hl hx heol,
+    if_neg (Proofs.IntegrityExt.V1.nonlower_never_matches c (H a) b hb hnl)]
+
+/-- validating multi-layer read with the real MD5 and the exemption constant found in the source:
+from any state, a value of at most 100 MiB is returned for content key `c` only if `MD5 v = c`. -/
+theorem validated_get_sound_md5 (s s' : List Cache.Layer) (k c v : Bytes)
+    (h : Cache.getValidated Spec.Md5.md5 ⟨true, Generated.IntegritySrc.max_validation_size⟩ s k (some c) = (s', .hit v))
+    (hsz : v.length ≤ 100 * 1024 * 1024) : Spec.Md5.md5 v = c :=
+  validated_get_sound _ ⟨true, Generated.IntegritySrc.max_validation_size⟩ s s' k c v rfl h hsz
+
+/-- `ContentAddressedCache::get_validated` with the real MD5 (no exemption). -/
+theorem content_addressed_get_sound_md5 (l : Cache.Layer) (c v : Bytes)
+    (h : Cache.caGet Spec.Md5.md5 l c = .hit v) : Spec.Md5.md5 v = c :=
+  content_addressed_get_sound _ l c v h
+
+/-! ### the hypotheses of the extension theorems are satisfiable -/
+
+/-- a 2136-byte encoding table: header (1 CKey page, 1 EKey page of 1 KiB, ESpec block `z\0`), both
+index checksums `0¹⁶`; accepted under the constant-zero hash with entry parsers that count one entry
+per page, rejected as soon as a stored checksum byte differs. -/
+private def encFile (ck0 : Byte) : Bytes :=
+  [0x45, 0x4E, 1, 16, 16, 0, 1, 0, 1, 0, 0, 0, 1, 0, 0, 0, 1, 0, 0, 0, 0, 2] ++ [0x7a, 0] ++
+  (List.replicate 16 7 ++ ck0 :: List.replicate 15 0) ++ List.replicate 1024 1 ++
+  (List.replicate 16 8 ++ List.replicate 16 0) ++ List.replicate 1024 2
+
+example : (match Enc.parseWith (fun _ => List.replicate 16 0) (fun _ _ => .ok 1) (fun _ _ => .ok 1) (encFile 0) with
+    | .ok (1, 1) => true | _ => false) = true := by
+  decide +kernel
+example : (match Enc.parseWith (fun _ => List.replicate 16 0) (fun _ _ => .ok 1) (fun _ _ => .ok 1) (encFile 1) with
+    | .error .checksum => true | _ => false) = true := by
+  decide +kernel
+-- serialize ∘ deserialize on the 28-byte header-only file, real MD5
+example : Lru.accept Spec.Md5.md5 (Proofs.IntegrityExt.Lru.rehash Spec.Md5.md5 (List.replicate 28 0)) = true := by
+  decide +kernel
+-- an upper-case digit in an otherwise well-formed line
+example : V1.check lenHash ([0x58, 0x0a] ++ V1.pfx ++ (0x41 :: List.replicate 63 0x30) ++ [0x0a]) = .checksumErr := by
+  decide +kernel
+-- a validated read of a small value through the real MD5 (MD5("") = d41d8cd9…)
+example : (Cache.getValidated Spec.Md5.md5 ⟨true, Generated.IntegritySrc.max_validation_size⟩ [[([1], [])]] [1]
+    (some [0xd4,0x1d,0x8c,0xd9,0x8f,0x00,0xb2,0x04,0xe9,0x80,0x09,0x98,0xec,0xf8,0x42,0x7e])).2 = .hit [] := by
+  decide +kernel
 
 end Cascette.Props.C07
